@@ -452,4 +452,9 @@ Definition cone_factory_halfwidth (rho rs rd : T) : T := of_Z 2 * rho * (rs + rd
    negative side of the central ray) through the point with coordinates (xn along the
    central ray, xt along the detector axis) meets a flat detector at distance rd *)
 Definition fan_hit (rs rd xn xt : T) : T := (rs + rd) * xt / (rs + xn).
+(* helical_geometry: offset_along_axis = space.partition.min_pt[2], pitch = space.partition.extent[2] / num_turns *)
+Definition helical_params (zmin zmax turns : T) : T * T := (zmin, (zmax - zmin) / turns).
+(* cone_beam_geometry, 3-d: h = 2 sin(half_cone_angle) (rs + rd) with half_cone_angle = arctan(t),
+   t = max(|min_z|, |max_z|) / (rs - rho); sin(arctan t) = t / sqrt(1 + t^2).  Half height before the pixel round-up: *)
+Definition cone_factory_halfheight (t rs rd : T) : T := t / rt (1 + t * t) * (rs + rd).
 End Model.
